@@ -155,6 +155,8 @@ def default_body(rec):
         return b'{"took":1,"timed_out":false,"_shards":{"total":1,"successful":1,"skipped":0,"failed":0},"hits":{"total":{"value":1,"relation":"eq"},"hits":[{"_id":"1","_source":{}}]}}'
     if method == "HEAD":
         return b""
+    if path.startswith("/_cluster/settings"):
+        return b'{"acknowledged":true,"persistent":{},"transient":{}}'
     if path.startswith("/_cluster/health"):
         return (b'{"cluster_name":"sim","status":"green","timed_out":false,"number_of_nodes":1,"number_of_data_nodes":1,"active_primary_shards":1,'
                 b'"active_shards":1,"relocating_shards":0,"initializing_shards":0,"unassigned_shards":0}')
